@@ -1077,6 +1077,115 @@ def script_items(cases):
     return items
 
 
+def make_trajectory_case(rng):
+    sc = make_script_case(rng)
+    own = sc["system"] if rng.random() < 0.6 else make_system_case(rng)        # a coarse-grained run keeps another system than its script's
+    nt = rng.randint(0, 3)
+    size = len(own["state"])
+    return {"script": sc, "system": own, "t": sorted(rng.choice([0.0, 0.5, 1.0, 2.5]) for _ in range(nt)), "t_units": list(sysgen.rand_sys(rng)),
+            "data": [rng.choice([0.0, 1.0, 7.5, 1e-3, 250.0]) for _ in range(nt * size)], "data_units": list(sysgen.rand_sys(rng)),
+            "descr": rng.choice(["strengths engine", "x", ""]), "option": rng.choice(["euler", "gillespie", "tauleap"]),
+            "cgmap": (None if rng.random() < 0.6 else [rng.randrange(3) for _ in range(rng.randint(1, 4))]), "alias_seed": rng.randrange(2 ** 30)}
+
+
+def _py_system(strengths, U, sc):
+    state = U.UnitArray(list(sc["state"]), U.Units(sysgen.py_sys(U, sc["state_units"]), U.UnitsDimensions(quantity=1)))
+    return strengths.RDSystem(network=_py_network(strengths, U, sc["net"]), space=_py_space(strengths, U, sc["space_kind"], sc["space"]),
+                              state=state, chemostats=list(sc["chs"]), units_system=sysgen.py_sys(U, sc["units"]))
+
+
+def observe_trajectory(c):
+    import strengths
+    import strengths.rdoutput as ro
+    U = strengths.units
+    scratch = os.path.join(str(core.BUILD), "c12t_%d" % os.getpid())
+    shutil.rmtree(scratch, ignore_errors=True)
+    os.makedirs(scratch)
+    try:
+        try:
+            s = c["script"]
+            kw = {} if s["tmax"] is None else {"t_max": _qtext(s["tmax"])}
+            script = strengths.RDScript(system=_py_system(strengths, U, s["system"]),
+                                        t_sample=U.UnitArray(list(s["ts"]), U.Units(sysgen.py_sys(U, s["ts_units"]), U.UnitsDimensions(time=1))),
+                                        time_step=_qtext(s["dt"]), sampling_policy=s["policy"], sampling_interval=_qtext(s["interval"]),
+                                        rng_seed=s["seed"], init_state_processing=s["init"], units_system=sysgen.py_sys(U, s["units"]), **kw)
+            tr = ro.RDTrajectory(data=U.UnitArray(list(c["data"]), U.Units(sysgen.py_sys(U, c["data_units"]), U.UnitsDimensions(quantity=1))),
+                                 t_sample=U.UnitArray(list(c["t"]), U.Units(sysgen.py_sys(U, c["t_units"]), U.UnitsDimensions(time=1))),
+                                 system=_py_system(strengths, U, c["system"]), script=script, engine_description=c["descr"], engine_option=c["option"],
+                                 cgmap=c["cgmap"])
+            p0 = os.path.join(scratch, "t0.json")
+            ro.save_rdtrajectory(tr, p0, separate_data=False)
+            written = json.load(open(p0, encoding="utf-8"))
+        except Exception as e:
+            return {"error": "%s: %s" % (type(e).__name__, str(e)[:100])}
+        rng = random.Random(c["alias_seed"])
+        variants = [["as_written", copy.deepcopy(written)]]
+        v = copy.deepcopy(written)
+        v["comment"] = "an entry the loader does not know"           # ignored: the loader indexes the keys it wants
+        variants.append(["extra_key", v])
+        if "cgmap" in written and rng.random() < 0.5:
+            v = copy.deepcopy(written)
+            del v["cgmap"]
+            variants.append(["omitted:cgmap", v])
+        v = copy.deepcopy(written)
+        key = rng.choice(["engine_option", "t_sample", "system", "data"])
+        del v[key]                                                    # a missing mandatory entry: rejected
+        variants.append(["missing:" + key, v])
+        v = copy.deepcopy(written)
+        v["script"]["dt"] = v["script"].pop("time_step")              # aliases work inside the nested script
+        variants.append(["nested_alias", v])
+
+        def rebuild(d):
+            p1, p2 = os.path.join(scratch, "in.json"), os.path.join(scratch, "out.json")
+            json.dump(d, open(p1, "w", encoding="utf-8"))
+            ro.save_rdtrajectory(ro.load_rdtrajectory(p1), p2, separate_data=False)
+            return json.load(open(p2, encoding="utf-8"))
+        return {"written": written, "variants": _variants_out(variants, rebuild)}
+    finally:
+        shutil.rmtree(scratch, ignore_errors=True)
+
+
+def g_system_obj(sy):
+    return "(Build_system_obj str %s %s (%s, (%s, %s)) %s %s)" % (
+        g_network_obj(sy["net"]), g_space_obj(sy["space_kind"], sy["space"]), g_list([g_codepoints(repr(float(v))) for v in sy["state"]]),
+        si.g_usys(sy["state_units"]), si.g_dim([0, 0, 1]), g_list([core.g_z(b) for b in sy["chs"]]), si.g_usys(sy["units"]))
+
+
+def g_script_obj(c):
+    def gq(q):
+        return "(%s, (%s, %s))" % (g_codepoints(repr(float(q["v"]))), si.g_usys(q["sys"]), si.g_dim(q["dim"]))
+    return "(Build_script_obj str %s (%s, (%s, %s)) %s %s %s %s %s %s %s)" % (
+        g_system_obj(c["system"]), g_list([g_codepoints(repr(float(t))) for t in c["ts"]]), si.g_usys(c["ts_units"]), si.g_dim([0, 1, 0]), gq(c["dt"]),
+        "None" if c["tmax"] is None else "(Some %s)" % gq(c["tmax"]), g_codepoints(c["policy"]), gq(c["interval"]), core.g_z(c["seed"]),
+        g_codepoints(c["init"]), si.g_usys(c["units"]))
+
+
+def emit_trajectory(c, o):
+    gt = "(Build_trajectory_obj str %s %s (%s, (%s, %s)) (%s, (%s, %s)) %s %s %s : tj_obj)" % (
+        g_script_obj(c["script"]), g_system_obj(c["system"]), g_list([g_codepoints(repr(float(v))) for v in c["data"]]), si.g_usys(c["data_units"]),
+        si.g_dim([0, 0, 1]), g_list([g_codepoints(repr(float(v))) for v in c["t"]]), si.g_usys(c["t_units"]), si.g_dim([0, 1, 0]),
+        g_codepoints(c["descr"]), g_codepoints(c["option"]), "None" if c["cgmap"] is None else "(Some %s)" % g_list([core.g_z(v) for v in c["cgmap"]]))
+    if "error" in o:
+        return gt, "(JBool false, [])"
+    go = "(%s, %s)" % (g_jv(o["written"]), g_list(["(%s, %s)" % (g_jv(v), g_jv(w)) for _, v, w in o["variants"]]))
+    return gt, go
+
+
+def trajectory_items(cases):
+    obs = child.map_children("c12", "observe_trajectory", cases, timeout=60)
+    items = []
+    for c, o in zip(cases, obs):
+        if "timeout" in o or "crash" in o:
+            o = {"error": "timeout or crash"}
+        try:
+            gc, go = emit_trajectory(c, o)
+        except ValueError as e:
+            o = {"error": str(e)}
+            gc, go = emit_trajectory(c, o)
+        items.append({"case": c, "obs": o, "gcase": gc, "gobs": go, "nontrivial": "error" not in o})
+    return items
+
+
 def check(run):
     rng = random.Random(run.seed)
     sysgen.POOLS["space"] = ["cm", "mm", "dmm", "cmm", "µm", "nm", "dm"]
@@ -1138,12 +1247,20 @@ def check(run):
         for label, _, w in it["obs"].get("variants", []):
             run.count("script_variant:" + label.split(":")[0] + (":rejected" if w is None else ""))
     core.decide(run, citems, IMPORTS, "accept_C12_script", oracle_species, shard=10)
+    titems = trajectory_items([make_trajectory_case(rng) for _ in range(ns // 2)])
+    for it in titems:
+        for label, _, w in it["obs"].get("variants", []):
+            run.count("trajectory_variant:" + label.split(":")[0] + (":rejected" if w is None else ""))
+    core.decide(run, titems, IMPORTS, "accept_C12_trajectory", oracle_species, shard=6)
 
 
 def replay(run, payload):
     sysgen.POOLS["space"] = ["cm", "mm", "dmm", "cmm", "µm", "nm", "dm"]
     if payload.get("correspondence") == "accept_C12_species":
         core.decide(run, species_items([payload["case"]]), IMPORTS, "accept_C12_species", oracle_species)
+        return
+    if payload.get("correspondence") == "accept_C12_trajectory":
+        core.decide(run, trajectory_items([payload["case"]]), IMPORTS, "accept_C12_trajectory", oracle_species)
         return
     if payload.get("correspondence") == "accept_C12_script":
         core.decide(run, script_items([payload["case"]]), IMPORTS, "accept_C12_script", oracle_species)
